@@ -205,6 +205,23 @@ CHECKS["C17"] = dict(
     note="Genuine defect found and fixed (05ea788). Which item/position the real numbers select is NOT specified (only "
          "legality), so a different but legal selection rule never alarms. Hardness value itself is not judged.")
 
+CHECKS["C10"] = dict(
+    category="model_checking", design_ref="DESIGN.md section 2 (C10)",
+    technique="retry loop of run_ode as a TLA+ machine (bounded attempts, strictly decreasing limits, termination under "
+              "fairness); recorded simulations of a program catalogue validated by TLC through exact float order/"
+              "bit-equality statements (F64 module), hook events checked against the machine; figure of merit and "
+              "finite differences recomputed by TLC as fractions on exactly representable arrays",
+    text="OdeRun.tla: at most 5 attempts, strictly decreasing limits, termination. Trace_Ode judges every recorded run of "
+         "(equations, controller) programs (zero/decay/exploding/fast/ramp dynamics x fine, huge, NaN, inf, time-"
+         "dependent controllers, bundled systems with bundled controllers): rows = steps with first row = start, time "
+         "strictly increasing from 0 to at most the limit, all cells finite and inside (-1e10, 1e10), control = the "
+         "controller re-invoked on the row (bit-equal), last time = last cycle limit; or the single failure row; at most "
+         "5 cycles with strictly decreasing limits (hook). j_from_ode/t_from_ode/diff_from_ode on dyadic arrays equal "
+         "the documented sums exactly.",
+    note="NOT covered: agreement of simulated states with analytic solutions (numeric accuracy cannot be stated in "
+         "TLA+); J of real simulation output (only structurally on exact inputs). Termination relies on a wall-clock "
+         "guard per run.")
+
 NOT_YET = {
 }
 
@@ -237,7 +254,7 @@ def main() -> None:
             "guard": "MOPTIPYAPPS_VERIF",
             "enable": "checks set MOPTIPYAPPS_VERIF=1 in the environment before importing moptipyapps from /repo (pure Python, no build step)",
             "baseline_off_cmd": "cd /repo && env -u MOPTIPYAPPS_VERIF " + BASE["cmd"].split("&& ", 1)[1].replace("<file>", "/tmp/baseline_off.junit.xml"),
-            "source_commits": ["ff01998"],
+            "source_commits": ["ff01998", "8af539c"],
             "add_only": True,
         },
         "engines": [{"name": "tlc", "path": "/verif/spec", "serves_properties": [c["property_id"] for c in checks],
